@@ -82,6 +82,23 @@ def near_point (m, rng_pick, d, direction):
     return None, None
 # end def near_point
 
+FD_KEY = 'near-H-finite-difference-step'
+
+def h_key (m, x, Hc, H, scale = 1.0):
+    """ mechanism key of a deviation of the reported H (Hc) from the exact curl H of the solved currents. Known
+        finding: the program forms H from differences of the vector potential over 0.001 wavelengths; close to short
+        segments the truncation error of that step, of order (0.001 lambda / distance) ** 2, exceeds 1 %. A deviation
+        is that finding only if the reported H *equals* (1e-3) the central difference over that step of the exact vector
+        potential (computed here) - any other error in H does not.
+    """
+    if np.linalg.norm (Hc - H) <= 0.01 * np.linalg.norm (H):
+        return 'near-H'
+    Hf = nfref.h_central_difference (m, x, 0.001 * gen.C_MHZ / m.f) * scale
+    if np.linalg.norm (Hc - Hf) <= 1e-3 * np.linalg.norm (H):
+        return FD_KEY
+    return 'near-H'
+# end def h_key
+
 def check (c):
     spec = c if 'geo' in c else make (c)
     MM   = common.repo ()
@@ -121,7 +138,6 @@ def check (c):
             pts.append (('mid', x))
     classes = set ()
     refs = []
-    band_pts = []
     for kind, x in pts:
         kw = {} if pwr is None else dict (pwr = pwr)
         common.guarded (lambda: m.compute_near_field (list (x), [1.0, 1.0, 1.0], [1, 1, 1], **kw), 'compute_near_field')
@@ -138,11 +154,9 @@ def check (c):
         dH = np.linalg.norm (Hc - H) / np.linalg.norm (H)
         judge ('E.' + kind, dE, 0.01, 'E at %s (%.2f segments from the nearest conductor) deviates %.3g from the field of the solved currents' % (np.round (x, 4), nfref.min_distance (m, x), dE), key = 'near-E')
         dist = nfref.min_distance (m, x)
-        # between 1 and 1.5 segment lengths the magnetic field misses the 1 % by a hair in rare cases (known finding,
-        # see known_findings.json); anything larger or farther out is a violation of its own
-        hkey = 'near-H-band-1-to-1.5-segments' if (dist < 1.5 and 0.01 < dH <= 0.013) else 'near-H'
-        if hkey != 'near-H':
-            band_pts.append (tuple (np.round (x, 9)))
+        # close to short segments the finite-difference step of the magnetic field exceeds the 1 % (known finding,
+        # classified by h_key with a central difference of the exact vector potential); any other error is a violation
+        hkey = h_key (m, x, Hc, H, scale)
         judge ('H.' + kind, dH, 0.01, 'H at %s (%.2f segments from the nearest conductor) deviates %.3g from the field of the solved currents' % (np.round (x, 4), dist, dH), key = hkey)
     # ---- far shells: the near field converges to the reported far field (deviation ~ 1 / r)
     size = max (np.linalg.norm (np.asarray (p.point, float)) for p in m.pulses) / lam
@@ -211,7 +225,7 @@ def check (c):
         Ec, Hc = np.asarray (m.e_field [0]), np.asarray (m.h_field [0])
         judge ('E.repeat', np.linalg.norm (Ec - E) / np.linalg.norm (E), 0.01, 'E at %s, asked again after a request with another power level, deviates from the field of the solved currents' % (np.round (x, 4),), key = 'near-E')
         judge ('H.repeat', np.linalg.norm (Hc - H) / np.linalg.norm (H), 0.01, 'H at %s, asked again after a request with another power level, deviates from the field of the solved currents' % (np.round (x, 4),)
-              , key = 'near-H-band-1-to-1.5-segments' if tuple (np.round (x, 9)) in band_pts and np.linalg.norm (Hc - H) / np.linalg.norm (H) <= 0.013 else 'near-H')
+              , key = h_key (m, x, Hc, H, scale))
     # ---- a request written with whole numbers only (API: python ints for start, increment and count) is the
     # same request as with floats: the field of the solved currents at those points
     for kind, x, E, H in refs [:2]:
@@ -224,9 +238,11 @@ def check (c):
         dist = nfref.min_distance (m, np.array (xi, float))
         # (on the axis of a straight antenna the magnetic field vanishes: compared on the scale of E / 376.7 ohm)
         dH = np.linalg.norm (Hc - Hi) / max (np.linalg.norm (Hi), 1e-3 * np.linalg.norm (Ei) / 376.73)
-        judge ('E.int', np.linalg.norm (Ec - Ei) / np.linalg.norm (Ei), 0.01, 'E at %s (request in whole numbers) deviates from the field of the solved currents' % (xi,), key = 'near-E')
+        # (whole-number points fall on symmetry planes and on the ground plane, where a field can vanish identically:
+        # then compared on the scale of 376.7 ohm x |H|)
+        judge ('E.int', np.linalg.norm (Ec - Ei) / max (np.linalg.norm (Ei), 1e-3 * 376.73 * np.linalg.norm (Hi)), 0.01, 'E at %s (request in whole numbers) deviates from the field of the solved currents' % (xi,), key = 'near-E')
         judge ('H.int', dH, 0.01, 'H at %s (request in whole numbers) deviates %.3g from the field of the solved currents' % (xi, dH)
-              , key = 'near-H-band-1-to-1.5-segments' if (dist < 1.5 and 0.01 < dH <= 0.013) else 'near-H')
+              , key = h_key (m, np.array (xi, float), Hc, Hi))
         break
     # ---- the same object at another frequency: the field of the new currents at the new wavelength
     if refs and not viol:
@@ -239,7 +255,7 @@ def check (c):
             Ec, Hc = np.asarray (m.e_field [0]), np.asarray (m.h_field [0])
             E2, H2 = nfref.fields (m, x, 8)
             judge ('E.f2', np.linalg.norm (Ec - E2) / np.linalg.norm (E2), 0.01, 'E at %s after the frequency of the object was changed from %.6g to %.6g MHz deviates from the field of the solved currents' % (np.round (x, 4), f0, m.f), key = 'near-E-after-frequency-change')
-            judge ('H.f2', np.linalg.norm (Hc - H2) / np.linalg.norm (H2), 0.013, 'H at %s after the frequency of the object was changed from %.6g to %.6g MHz deviates from the field of the solved currents' % (np.round (x, 4), f0, m.f), key = 'near-H-after-frequency-change')
+            judge ('H.f2', np.linalg.norm (Hc - H2) / np.linalg.norm (H2), 0.01, 'H at %s after the frequency of the object was changed from %.6g to %.6g MHz deviates from the field of the solved currents' % (np.round (x, 4), f0, m.f), key = FD_KEY if h_key (m, x, Hc, H2) == FD_KEY else 'near-H-after-frequency-change')
         m.f = f0
     if not any (k.startswith ('E.') for k in mon):
         return dict (status = 'inconclusive', reason = 'no admissible observation point / quadrature self-check failed')
